@@ -10,6 +10,7 @@ CONSTANTS
   Aging = FALSE
   TwoStep = TRUE
   RecAging = TRUE
+  MaxFaults = 0
 VIEW view
 INVARIANTS TypeOK OneRunner RunnerRegistered NoPanic AtMostOnce StartOnce MutexInv WaitTruth StaleRejected IndexLags
 PROPERTIES StartedFromNS TerminalStable OnlyRunningResumed OnlyStaleClosed
